@@ -13,6 +13,62 @@ FUNCS = {
         scens=['onshell'], thorough_scens=['onshell', 'onshell_comp'],
         chain=['gdown4', 'gup4', 'gdet', 'st_Gamma_udd4', 'st_Riemann_down4', 'st_Riemann_uddd4',
                'st_Riemann_uudd4', 'st_Ricci_down4', 'st_RicciS', 'Einsteindown4', 'Kretschmann']),
+    'C05': dict(
+        funcs=['s_Gamma_udd3', 's_Riemann_uddd3', 's_Riemann_down3', 's_Ricci_down3', 's_RicciS',
+               'gammaup3', 'gammadet', 'psi_bssnok', 'phi_bssnok', 'gammadown3_bssnok', 'gammaup3_bssnok',
+               's_Gamma_udd3_bssnok', 's_Gamma_bssnok', 's_Ricci_down3_bssnok', 's_RicciS_bssnok',
+               's_Ricci_down3_phi', 'DDalpha'],
+        helpers=['s_covd', 'st_covd', 's_div', 's_curl', 'Lie_beta', 'levicivita_down3', 'levicivita_down4',
+                 'levicivita_symbol_down3', 'levicivita_symbol_down4', 'kronecker_delta3', 'kronecker_delta4',
+                 'trace3', 'tracefree3'],
+        scens=['onshell'], thorough_scens=['onshell', 'onshell_comp'],
+        chain=['s_Gamma_udd3', 's_Riemann_uddd3', 's_Riemann_down3', 's_Ricci_down3', 's_RicciS',
+               's_Gamma_udd3_bssnok', 's_Gamma_bssnok', 's_Ricci_down3_bssnok', 's_RicciS_bssnok',
+               's_Ricci_down3_phi', 'DDalpha']),
+    'C06': dict(
+        funcs=['Hamiltonian', 'Momentumup3', 'Momentumdown3', 'Momentumx', 'Momentumy', 'Momentumz',
+               'Momentumdownx', 'Momentumdowny', 'Momentumdownz', 'rho_n', 'fluxup3_n', 'fluxdown3_n',
+               'Stressup3_n', 'Stressdown3_n', 'Stresstrace_n', 'Ktrace', 'Kup3', 'Adown3', 'Aup3',
+               'Adown3_bssnok', 'Aup3_bssnok', 'A2_bssnok', 'DDalpha', 'dtKtrace', 'dtphi_bssnok', 'dtgammaup3',
+               'dtgammadown3_bssnok', 'dtAdown3_bssnok', 'dts_Gamma_bssnok', 'rho_n_fromHam',
+               'fluxup3_n_fromMom', 'Hamiltonian_Escale', 'Hamiltonian_norm', 'Momentum_Escale',
+               'Momentumx_norm', 'Momentumy_norm', 'Momentumz_norm', 'Momentumdownx_norm', 'Momentumdowny_norm',
+               'Momentumdownz_norm'],
+        helpers=['Lie_beta', 's_covd', 'tracefree3', 'trace3'],
+        scens=['onshell'], thorough_scens=['onshell', 'onshell_comp'],
+        chain=['Hamiltonian', 'Momentumup3', 'Momentumdown3', 'dtKtrace', 'dtphi_bssnok', 'dtgammaup3',
+               'dtgammadown3_bssnok', 'dtAdown3_bssnok', 'dts_Gamma_bssnok', 'rho_n_fromHam', 'fluxup3_n_fromMom']),
+    'C09': dict(
+        funcs=['rho0', 'eps', 'rho', 'enthalpy', 'press', 'w_lorentz', 'velx', 'vely', 'velz', 'velup3', 'velup4',
+               'veldown3', 'veldown4', 'uup0', 'uup3', 'uup4', 'udown4', 'udown3', 'hdown4', 'hdet', 'hmixed4',
+               'hup4', 'Tdown4', 'Tup4', 'Ttrace', 'rho_n', 'fluxup3_n', 'fluxdown3_n', 'Stressup3_n',
+               'Stressdown3_n', 'Stresstrace_n', 'press_n', 'anisotropic_press_down3_n', 'angmomup3_n',
+               'angmomdown3_n', 'conserved_D', 'conserved_E', 'conserved_Sdown4', 'conserved_Sdown3',
+               'conserved_Sup4', 'conserved_Sup3', 'gammadown4', 'gammaup4', 'nup4', 'ndown4'],
+        helpers=['trace4', 'trace3', 'levicivita_down3'],
+        scens=['fluid', 'freeT'], thorough_scens=['fluid', 'fluid_comp', 'freeT', 'onshell'],
+        chain=['uup4', 'udown4', 'Tdown4', 'Tup4', 'Ttrace', 'rho_n', 'fluxup3_n', 'fluxdown3_n', 'Stressdown3_n',
+               'Stressup3_n', 'Stresstrace_n', 'press_n', 'anisotropic_press_down3_n', 'conserved_D',
+               'conserved_E', 'conserved_Sdown4', 'conserved_Sup4', 'hdown4', 'hup4', 'hmixed4'],
+        chain_scens=['fluid']),
+    'C10': dict(
+        funcs=['st_Weyl_down4', 'eweyl_n_down3', 'bweyl_n_down3', 'eweyl_u_down4', 'bweyl_u_down4',
+               'Weyl_Psi', 'Weyl_invariants'],
+        helpers=['levicivita_down3', 'levicivita_down4', 'levicivita_symbol_down3', 'levicivita_symbol_down4',
+                 's_to_st', 's_covd', 'tracefree3', 'norm3', 'norm4', 'vector_inner_product3',
+                 'vector_inner_product4'],
+        scens=['onshell', 'onshell_fluidtetrad'], thorough_scens=['onshell', 'onshell_fluidtetrad', 'onshell_comp'],
+        chain=['st_Weyl_down4', 'eweyl_n_down3', 'bweyl_n_down3', 'eweyl_u_down4', 'bweyl_u_down4'],
+        chain_scens=['onshell']),
+    'C19': dict(
+        funcs=['dtconserved', 'st_covd_udown4', 'accelerationdown4', 'accelerationup4', 's_covd_udown4',
+               'thetadown4', 'theta', 'sheardown4', 'shear2', 'omegadown4', 'omega2', 'uup4', 'udown4',
+               'hdown4', 'hup4', 'hmixed4', 'conserved_D', 'conserved_E', 'conserved_Sdown4', 'conserved_Sdown3',
+               'conserved_Sup4', 'conserved_Sup3'],
+        helpers=['st_covd'],
+        scens=['onshell'], thorough_scens=['onshell', 'onshell_comp'],
+        chain=['uup4', 'st_covd_udown4', 'accelerationdown4', 'theta', 'sheardown4', 'shear2', 'omegadown4',
+               'omega2', 'thetadown4']),
 }
 
 
@@ -27,5 +83,5 @@ def run_tensor(R, pid):
         function_obligations(R, W, f, scens, npoints=npts)
     for s in scens[:1]:
         helper_obligations(R, W, s, only=set(cfg.get('helpers', [])), npoints=npts)
-    for s in scens:
+    for s in cfg.get('chain_scens', scens):
         chain_obligations(R, W, s, cfg.get('chain', []), 'property', npoints=npts)
